@@ -145,7 +145,7 @@ def simplifier(g):
 ALL = grid.Grid("all", urlgram.text_slots(1, None) + urlgram.structure_slots() + [DP], free=OPT_FREE)
 
 
-def explore(chk, prop=PROP, evaluate=evaluate, fails_fn=fails_fn):
+def explore(chk, prop=PROP, evaluate=evaluate, fails_fn=fails_fn, shrink=None):
     chk.rule.append(
         "E1: URL grammar grids executed on the real canonicalize_url for every (quoted, strip_fragment) vector: "
         "G1 = every token string (<= k tokens over the full alphabet, <= core_k over the core) in each of the six text "
@@ -158,10 +158,10 @@ def explore(chk, prop=PROP, evaluate=evaluate, fails_fn=fails_fn):
     tags_total = {}
     n0 = chk.cov["states"]
     for g, d in grids(chk.tier):
-        failures, tags = grid.run(chk, g, d, evaluate)
+        failures, tags = grid.run(chk, g, d, evaluate, shrink=shrink or (ALL.wit, ALL.wsimplify, fails_fn))
         for t, n in tags.items():
             tags_total[t] = tags_total.get(t, 0) + n
-        all_f.extend((c, ALL.wit(case), e, gg) for (c, case, e, gg) in failures)
+        all_f.extend(failures)
     mine = chk.cov["states"] - n0
     chk.add("transitions", mine * 2)
     chk.add("evaluations", mine)
@@ -177,4 +177,3 @@ def run(chk):
     all_f, tags, ind = explore(chk)
     for part in ["returns"] + ORDER + ["unsplit"]:
         chk.clause(PROP + "." + part, checked=ind, nontrivial=tags.get("changed", 0))
-    core.reduce_failures(chk, all_f, simplifier(ALL), fails_fn)
